@@ -84,7 +84,7 @@ def run(ctx):
     SS = anchors.start_self(prog)
     sba = BA.of(SS)
     forks = sba.calls(anchors.FORK_START)
-    unl = sba.calls_deep(r"helpers::unlink", prog)
+    unl = sba.calls_deep(r"helpers::unlink(_output)?|nix::unistd::unlink|std::fs::remove_file", prog)
     common.mpt(ctx, "R10.4", "%s|stale-tmp-removed-before-fork" % SS.key, SS, [0], forks, unl, "unlink(tmp) precedes the fork", "a temp output of a killed run survives into the next build")
     per = sba.calls(r"tempfile::file::NamedTempFile::persist|tempfile::NamedTempFile::persist")
     tin = sba.calls(r"tempfile::Builder::tempfile_in")
